@@ -41,6 +41,19 @@ CLAIMED = {
         "(size, spacing, center, origin, direction, align_corners, cube_extent), float32 tolerance policy",
         "DESIGN.md 3 C03",
     ),
+    "C19": (
+        "spec/Batch.tla, spec/MC_Batch.tla, spec/Trace_Batch.tla",
+        "TLA+ state machine over programs of torch operations: each operation is given by its mathematical effect on the item "
+        "sequence, the admissible answers are 'plain' or a well-described typed value; TLC enumerates all programs up to length 2 "
+        "(with every admissible answer), each is executed on real ImageBatch/FlowFields/Image/FlowField objects with distinct "
+        "per-item grids; longer random programs are recorded and validated by Trace_Batch; collate_samples as concatenation",
+        "exhaustive over an alphabet of ~80 concrete torch calls for programs of length <= 2; the invariant WellDescribed (one grid "
+        "per entry, shape match, entry i carries the grid of the item whose data it holds, axes kept) is checked on the model and "
+        "the implementation's answer must be one the model admits; a dispatcher exception on an op torch accepts is a violation",
+        "trusted: TLC, the effect table in MC_Batch.tla, the projection (constant-filled items identify data, unique centres identify "
+        "grids); operations that mix data of several items are outside the statement and not constrained",
+        "DESIGN.md 3 C19",
+    ),
 }
 
 PENDING_REASON = "check not built yet in this revision (planned, see DESIGN.md section 9); not claimed until it runs clean"
